@@ -330,9 +330,6 @@ fn attribute_to_c15(rec: &mut CaseRecord) {
     for i in rec.issues.iter_mut() {
         // a run which panics or returns an error instead of a solution is not a valid run either
         if matches!(i.prop.as_str(), "C01" | "C02" | "C03") || (i.prop == "C07" && matches!(i.rule.as_str(), "panic" | "solve-error")) {
-            if i.rule == "panic" && i.msg.contains("ComponentRange") && i.msg.contains("timestamp") {
-                i.sig = if i.sig.is_empty() { "timestamp-out-of-range".into() } else { format!("{}|timestamp-out-of-range", i.sig) };
-            }
             i.prop = "C15".into();
         }
     }
